@@ -213,7 +213,16 @@ def run_batch(sh, ctx):
 				args += ['-l', lf, '--ldir', qw.qdir if channel == 'listfile-rel' or rng.random() < 0.5 else '/nonexistent-base-is-ignored-for-absolute' if False else qw.qdir]
 			elif channel == 'sigfile-create':
 				sf = qw.dir / f'q{ci}.gs'
-				c2, so2, se2, exc2 = run_cmd(['signatures', 'create', '-k', w.k, '-p', w.prefix, '-o', sf, '--no-progress'] + [f['path'] for f in batch])
+				idopt = []
+				if rng.random() < 0.4:
+					# explicit ids for the stored signatures: these are then the row labels
+					custom = [f'custom id {j} ' + rng.choice(['x', 'y,z', 'ü']) for j in range(len(batch))]
+					idf = qw.dir / f'ids{ci}.txt'
+					idf.write_text(''.join(c_ + '\n' for c_ in custom))
+					idopt = ['-i', idf]
+					labels = [c_.strip() for c_ in custom]
+					ctx.count('sigfile_with_explicit_ids')
+				c2, so2, se2, exc2 = run_cmd(['signatures', 'create', '-k', w.k, '-p', w.prefix, '-o', sf, '--no-progress'] + idopt + (['-c', rng.choice([1, 2, 5])] if rng.random() < 0.5 else []) + [f['path'] for f in batch])
 				if c2 != 0:
 					ctx.violation('command-fails', f'signatures create exited {c2}: {se2[-200:]} {exc2}', dict(files=[f['rel'] for f in batch]))
 					continue
